@@ -85,7 +85,7 @@ def exactly_computable(rows):
 # generators
 # ---------------------------------------------------------------------------
 def gen_matrix(rng):
-    fam = rng.choice(['random', 'smallint', 'smallint', 'perm', 'zerodiag', 'badscale',
+    fam = rng.choice(['random', 'smallint', 'smallint', 'perm', 'zerodiag', 'badscale', 'pow2scale',
                       'nearsing', 'singular', 'singular', 'nonfinite', 'nonsquare'])
     n = rng.choice([1, 2, 2, 3, 3, 3, 4, 4, 5, 6, 7, 8])
     if fam == 'random':
@@ -105,6 +105,14 @@ def gen_matrix(rng):
     elif fam == 'badscale':
         sc = [10.0 ** rng.randint(-6, 6) for _ in range(n)]
         a = [[rng.uniform(-1, 1) * sc[i] * sc[j] ** 0.5 for j in range(n)] for i in range(n)]
+    elif fam == 'pow2scale':
+        # a regular, well-conditioned matrix times an exact power of two (tiny or huge): regular
+        # input however small its entries are; singular ones must still raise
+        k = rng.choice([-300, -200, -100, -60, -53, -30, 30, 100, 200])
+        a = [[float(rng.randint(-5, 5)) for _ in range(n)] for _ in range(n)]
+        for i in range(n):
+            a[i][i] += 7.0 * rng.choice([1, -1])
+        a = [[x * 2.0 ** k for x in r] for r in a]
     elif fam == 'nearsing':
         a = [[rng.uniform(-1, 1) for _ in range(n)] for _ in range(n)]
         if n >= 2:
